@@ -558,6 +558,9 @@ func (h *handler) cycleSchemas(seed int64, nproc int, thorough bool) int {
 		}
 		h0, _ := projgen.HashTree(root, isGo)
 		first, hs, ok := h.multiRunV(variants, root, func() error { return snap.Restore(pre) }, label, replay)
+		if ok && !first.OK() && first.Class != "timeout" && first.Class != "crash" {
+			h.c.Violate("C18:second-run-fails", fmt.Sprintf("%s\nthe first generation (clean tree) succeeded; running Generate again on the tree holding its output, nothing edited, ended %s in every process\n%s", label, first.Class, tail(first.Stderr, 800)), replay)
+		}
 		if !ok || !first.OK() {
 			return
 		}
@@ -624,6 +627,10 @@ func (h *handler) richSchemas(n int, seed int64) {
 		}
 		h0, _ := projgen.HashTree(root, isGo)
 		first, hs, ok := h.multiRun(root, func() error { return snap.Restore(pre) }, label, replay)
+		if ok && !first.OK() && first.Class != "timeout" && first.Class != "crash" {
+			// the first generation succeeded; generating again on the tree it left behind, nothing edited, does not
+			h.c.Violate("C18:second-run-fails", fmt.Sprintf("%s\nthe first generation (clean tree) succeeded; running Generate again on the tree holding its output, nothing edited, ended %s in every process\n%s", label, first.Class, tail(first.Stderr, 800)), replay)
+		}
 		if !ok || !first.OK() {
 			return
 		}
@@ -689,7 +696,7 @@ func main() {
 		}
 		mcDone <- r
 	}()
-	edgeCfg, nSteps, nRich := "MC_Project_edges_c18.cfg", 18, 6
+	edgeCfg, nSteps, nRich := "MC_Project_edges_c18.cfg", 22, 6
 	pairs := []string{"Query_f1", "T_g"}
 	h := &handler{c: c, variants: variantsQuick}
 	if thorough {
